@@ -41,3 +41,11 @@ def canon_trusts(ts):
       d = {'positive': 1, 'negative': -1}[d.lower()]
     out.append((m, c, int(d)))
   return out
+
+
+def canon_convexity(c):
+  if c is None:
+    return 0
+  if isinstance(c, str):
+    return {'convex': 1, 'concave': -1, 'none': 0}[c.lower()]
+  return int(c)
